@@ -10,6 +10,7 @@ import time
 import traceback
 
 VERIF_DIR = os.path.dirname(os.path.dirname(os.path.abspath(__file__)))
+OUT_DIR = VERIF_DIR if not os.environ.get('VERIF_NO_EVIDENCE') else os.path.join(VERIF_DIR, '.work', 'noevidence-%d' % os.getpid())
 REPO = os.path.realpath(os.environ.get('VERIF_REPO', '/repo'))
 
 
@@ -226,7 +227,7 @@ class Run:
         wall = time.time() - self.t0
         replay_paths = []
         if self.violations and not self.replay:
-            d = os.path.join(VERIF_DIR, 'replays', self.pid)
+            d = os.path.join(OUT_DIR, 'replays', self.pid)
             os.makedirs(d, exist_ok=True)
             for key, v in self.violations.items():
                 safe = ''.join(c if c.isalnum() or c in '-_.' else '_' for c in key)[:80]
@@ -260,8 +261,8 @@ class Run:
             'verdict': 'violated' if self.violations else ('inconclusive' if self.inconclusive else 'held'),
         }
         if not self.replay:
-            os.makedirs(os.path.join(VERIF_DIR, 'evidence'), exist_ok=True)
-            with open(os.path.join(VERIF_DIR, 'evidence', f'{self.pid}.json'), 'w') as f:
+            os.makedirs(os.path.join(OUT_DIR, 'evidence'), exist_ok=True)
+            with open(os.path.join(OUT_DIR, 'evidence', f'{self.pid}.json'), 'w') as f:
                 json.dump(ev, f, indent=1, sort_keys=False, default=repr)
         for key, v in self.known_hit.items():
             print(f'KNOWN-FINDING: property={self.pid} key={key} {self.known[key]} (seen {v["n"]}x)')
